@@ -135,6 +135,12 @@ func StubRead(tr *tar.Reader, p []byte) (int, error) {
 	return int(n), nil
 }
 
+// HasContent reports whether the current entry of tr carries explicit content bytes.
+func HasContent(tr *tar.Reader) bool {
+	s := readers[tr].s
+	return s.cur >= 0 && s.Entries[s.cur].Content != nil
+}
+
 // TakeFrom removes up to max bytes (max < 0: all) of the current entry's payload from the
 // stream and returns how many; sizes may be symbolic.
 func TakeFrom(tr *tar.Reader, max int64) int64 {
